@@ -4,7 +4,7 @@
    the hand-written driver.  No Extract Constant. *)
 From Coq Require Extraction.
 From Coq Require Import ExtrOcamlBasic.
-From ASModel Require Import Base SetMatch SrcLoc Report PathRes Tokens Ast IR Expand Nodes Print Binders Values Sem Spec Shared.
+From ASModel Require Import Base SetMatch SrcLoc Report PathRes Tokens Ast IR Expand Nodes Print Binders Values Sem Spec Shared Features.
 From ASProofs Require Import SemP.
 Extraction Language OCaml.
 Set Extraction KeepSingleton.
@@ -15,5 +15,6 @@ Extraction "model.ml"
   Report.error_label Report.node_display Report.fallback_display
   PathRes.absolute_source_path PathRes.absolute_source_path_old PathRes.components
   Print.expand_top Nodes.gen_nodes Nodes.location Expand.expand Nodes.node_kind_of Binders.stmt_binders Binders.reserved
+  Features.top_refs Features.has_regex Features.compiles_in Features.dispatch_eq Features.macro_regex Features.runtime_regex
   Shared.step Shared.run Shared.cache_get Shared.guard_step Shared.plain_flag Shared.styled
   Sem.exec Spec.frontier Values.debug SemP.pat_ok Report.node_display.
